@@ -27,8 +27,9 @@ def main():
         seed = 0
     sys.path.insert(0, core.VERIF)
     # sleap-nn must come from /repo's working tree
-    if "/repo" not in sys.path:
-        sys.path.insert(0, "/repo")
+    # (VERIF_REPO lets the mutation drills point a check at a scratch worktree; default /repo)
+    repo = os.environ.get("VERIF_REPO", "/repo")
+    sys.path.insert(0, repo)
     try:
         mod = importlib.import_module(f"props.{pid.lower()}")
     except Exception:
